@@ -12,6 +12,11 @@ ID = "C03"
 MODULE = "DaliVerif.Props.C03"
 EXES = ["m_cmd"]
 GEN = True
+# tie by translation (DESIGN.md II.8): the frame-assembling constructors of 276 command classes and dali/address.py
+TIE_MODULES = ["DaliVerif.Tie.Command", "DaliVerif.Tie.Address"]
+TIE_THEOREMS = ["Tie.Command.%s" % n for n in
+                ("stdNoParam_tie", "stdParam_tie", "dapc_tie", "devStd_tie", "devInst_tie",
+                 "std_rows_traced", "dev_rows_traced", "inst_rows_traced")]
 THEOREMS = ["table_conforms", "rows_registered", "frame_is_standard", "frame_is_standard_gen",
             "extended_commands_carry_devicetype", "address_patterns"]
 TRUSTED = ["Spec/IEC62386.lean: 322 rows of the IEC 62386 command tables (parts 102, 103, 202, 205, 206, 207, 209, "
@@ -56,7 +61,7 @@ def correspond(ctx, corr):
         "row; frames of real objects for all destinations x all 4-bit params / sampled 8-bit params / sampled instance "
         "bytes vs the frame computed from the standard row; the standard's frame decoded by the real from_frame must "
         "give the class of that name. non-trivial = distinct classes and families")
-    classes = sorted(command.Command._commands, key=qn)
+    classes = sorted(__import__('gen._registry', fromlist=['x']).all_commands()[0], key=qn)
     spec_names = set(cc.run_model("m_cmd", ["spec rows"])[0].split())
     lib_names = set(qn(c) for c in classes)
     for n in sorted(spec_names - lib_names):
